@@ -19,7 +19,7 @@ VARIABLE l
 
 -----------------------------------------------------------------------------
 \* JSON arrays that stand for sets become sets
-NormAsg(a) == [a EXCEPT !.members = ToSet(a.members)]
+NormAsg(a) == [a EXCEPT !.members = ToSet(a.members), !.terminating = ToSet(a.terminating)]
 NormGroup(gs) == [gs EXCEPT !.asg = NormAsg(gs.asg), !.pc = NormAsg(gs.pc)]
 NormWorld(W) == [W EXCEPT !.groups = [g \in DOMAIN W.groups |-> NormGroup(W.groups[g])]]
 FaultSet(line) == ToSet(line.faults)
